@@ -49,7 +49,8 @@ package limiters
 
 // MultiLimit: ordered acquisition with roll-back. The wrapped limiters are distinct objects (Init builds each from a
 // separate constructor call).
-//@ pure func wrappedOK(ws []L) bool = (forall a int, b int :: 0 <= a && a < b && b < len(ws) ==> refOf(ws[a]) != refOf(ws[b])) && (forall k int :: 0 <= k && k < len(ws) ==> ws[k] != nil && ws[k].held >= 0)
+//@ pure func distinctW(ws []L) bool = forall a int, b int :: 0 <= a && a < b && b < len(ws) ==> refOf(ws[a]) != refOf(ws[b])
+//@ pure func wrappedOK(ws []L) bool = distinctW(ws) && (forall k int :: 0 <= k && k < len(ws) ==> ws[k] != nil && ws[k].held >= 0)
 //@ func (*MultiLimit).Take
 //@   prop C11
 //@   nopanic
@@ -79,7 +80,9 @@ package limiters
 //@ func (*MultiLimit).Release
 //@   prop C11
 //@   nopanic
-//@   requires ml != nil && wrappedOK(ml.Wrapped) && (forall k int :: 0 <= k && k < len(ml.Wrapped) ==> ml.Wrapped[k].held > 0)
+//@   requires ml != nil
+//@   requires distinctW(ml.Wrapped)
+//@   requires forall k int :: 0 <= k && k < len(ml.Wrapped) ==> ml.Wrapped[k] != nil && ml.Wrapped[k].held > 0
 //@   modifies L.held
 //@   ensures forall k int :: 0 <= k && k < len(ml.Wrapped) ==> ml.Wrapped[k].held == old(ml.Wrapped[k].held) - 1
 //@   loop 0 invariant forall k int :: 0 <= k && k <= rangeindex ==> ml.Wrapped[k].held == old(ml.Wrapped[k].held) - 1
